@@ -28,13 +28,27 @@ func only(h *vrt.Harness) *vrt.Harness {
 	return h
 }
 
+func scenarios(thorough bool) []schedh.Scenario {
+	return append(schedh.Scenarios(thorough), schedh.StartStateScenarios(thorough)...)
+}
+
 func main() {
 	e1q.Main(func(t *testing.T) {
 		var hs []*vrt.Harness
-		for _, sc := range schedh.Scenarios(true) {
+		for _, sc := range scenarios(true) {
 			hs = append(hs, only(schedh.Harness(sc)))
 		}
 		vrt.WorkerMain(hs)
+		if pat := os.Getenv("C17_DEBUG_TRACE"); pat != "" {
+			// debugging aid: print the default schedule of the scenarios whose name contains pat
+			for _, h := range hs {
+				if strings.Contains(h.Name, pat) {
+					x, obs, vio := vrt.Replay(h, nil)
+					fmt.Printf("%s\n  %s\n  obs=%q vio=%q\n", h.Name, labels(x), obs, vio)
+				}
+			}
+			return
+		}
 		if os.Getenv("C17_DEBUG_DET") != "" {
 			debugDet(hs)
 			return
@@ -47,7 +61,7 @@ func main() {
 		if run.Thorough() {
 			maxDur = 300
 		}
-		for _, sc := range schedh.Scenarios(run.Thorough()) {
+		for _, sc := range scenarios(run.Thorough()) {
 			h := only(schedh.Harness(sc))
 			_, o1, _ := vrt.Replay(h, nil)
 			_, o2, _ := vrt.Replay(h, nil)
